@@ -80,7 +80,7 @@ func runC05(p *core.Prog, r *core.Report, tier string) {
 		chk(3, "index=duty.ValidatorIndex()", isDutyAcc(ds.D(a[3]), "ValidatorIndex"))
 		var roots []string
 		for i, m := range []string{"ParentRoot", "StateRoot", "BodyRoot"} {
-			d := ds.D(a[4+i])
+			d := ds.D(core.ThroughLocalStruct(signFn, a[4+i], signSite))
 			okm := d.Kind == "extract" && d.Name == "0" && d.Args[0].IsCall("api.VersionedProposal."+m)
 			chk(4+i, strings.ToLower(m[:1])+m[1:]+"=proposal."+m+"()", okm)
 			if okm && len(d.Args[0].Args) > 0 {
